@@ -306,11 +306,19 @@ func (m *Muxer) retransmitTables(force bool) (int, error) {
 func (m *Muxer) WriteTables() (int, error) {
 	bytesWritten := 0
 
+	// Generating tables consumes continuity counters and version numbers and clears the "updated" flags. If
+	// nothing ends up being written they must be restored, otherwise the next tables skip a value
+	patVersion, patCC, pmUpdated := m.patVersion, m.patCC, m.pmUpdated
+	pmtVersion, pmtCC, pmtUpdated := m.pmtVersion, m.pmtCC, m.pmtUpdated
+
 	if err := m.generatePAT(); err != nil {
+		m.patVersion, m.patCC, m.pmUpdated = patVersion, patCC, pmUpdated
 		return bytesWritten, err
 	}
 
 	if err := m.generatePMT(); err != nil {
+		m.patVersion, m.patCC, m.pmUpdated = patVersion, patCC, pmUpdated
+		m.pmtVersion, m.pmtCC, m.pmtUpdated = pmtVersion, pmtCC, pmtUpdated
 		return bytesWritten, err
 	}
 
